@@ -64,6 +64,37 @@ def rule_a(ctx, ix):
     ctx.ob(R, f.construct, 'both operands are read from the same dataset with the same view', ok,
            detail='BinaryComponentLink.compute does not read both operands as data[operand, view]: %s' % [unparse(n) for n in reads],
            where=f.where)
+    # the list of input ids handed to the base class is built here, never a sub-link's own list mutated in place
+    from ..flow import Flow
+
+    def _cl(expr, state):
+        if (isinstance(expr, ast.Call) and call_name(expr) in ('get_from_ids', 'get_to_ids')) or \
+                (isinstance(expr, ast.Attribute) and expr.attr in ('_from', '_from_all')):
+            return {'shared:' + unparse(expr)}
+        if isinstance(expr, ast.Name):
+            return set(state.get(expr.id, ()))
+        return {'fresh'}
+    bad = []
+    shared = {}
+
+    def _on(st, state):
+        tgt = None
+        if isinstance(st, ast.Expr) and isinstance(st.value, ast.Call) and isinstance(st.value.func, ast.Attribute) \
+                and st.value.func.attr in ('append', 'extend', 'insert', 'remove', 'pop') and isinstance(st.value.func.value, ast.Name):
+            tgt = st.value.func.value.id
+        elif isinstance(st, ast.AugAssign) and isinstance(st.target, ast.Name):
+            tgt = st.target.id
+        if tgt is not None:
+            sh = [t for t in state.get(tgt, ()) if t.startswith('shared:')]
+            if sh:
+                bad.append(st)
+                shared[tgt] = sh[0]
+    Flow(_cl, on_stmt=_on).run(init.node, {})
+    ctx.ob(R, init.construct + ' inputs', 'the input-id list is fresh (a sub-link\'s own list is never extended in place)', not bad,
+           detail='BinaryComponentLink.__init__ takes the input-id list of an operand link (`%s`) and mutates it in place (`%s`): the '
+                  'operand link - which may itself be stored as an attribute - now claims the other operand\'s ids as its inputs, so '
+                  'removing one of them also removes the unrelated attribute'
+                  % (list(shared.values())[0] if shared else '', norm(bad[0]) if bad else ''), where=init.where)
     # replace_ids covers every id-holding field
     ea = EffectAnalyzer(ix)
     g = bcl.resolve_func('replace_ids')
